@@ -659,6 +659,22 @@ pub fn gen_case(label: &str, tier: &str, seed: u64, k: u64, o: &GenOpts) -> Case
     c
 }
 
+/// The same configuration in a box whose largest width is `f` (relative anchor and relative generator positions kept): at
+/// 1e-15 and below the absolute term of the float filter sends EVERY clip decision to the exact predicate.
+pub fn rescaled(c: &Case, f: f64) -> Case {
+    let rel = c.anchor / c.width;
+    let width = c.width / c.width.max_element() * f;
+    let anchor = rel * width;
+    let hi = anchor + width;
+    let mut out = c.clone();
+    out.pts = c.pts.iter().map(|&p| (anchor + (p - c.anchor) / c.width * width).clamp(anchor, hi)).collect();
+    out.anchor = anchor;
+    out.width = width;
+    out.origin.push_str(&format!("/rescaled{f:e}"));
+    out.dedup();
+    out
+}
+
 /// Periodic inputs with generators EXACTLY on the faces / edges / corners of the primary box, the upper ones (coordinate ==
 /// anchor + width, what `rem_euclid` or `x - floor(x)` style wrapping returns for a tiny negative coordinate) in two cases of
 /// three: one periodic case in six of the unstructured families gets 1-3 such generators. In a periodic box the primary walls
